@@ -44,6 +44,11 @@ CHECKS = {
    text='For every deck of a deviation-bounded family of universe trees and of a family of surface sets built to stress surface equality and hashing, ALL 56 configurations (2^3 flags x 7 inline scores) are converted; each output must agree with the reference (owner provenance and composition) at all witnesses, which makes all configurations pairwise equivalent, and every surface use of the un-deduplicated file must have a polynomially identical surface on the same side of the same volume of the de-duplicated file.',
    note='Trusted: semantics as C05/C09. Real inline scores are covered at 7 values on both sides of every threshold reachable by the decks.',
    tech='explicit enumeration of decks x complete configuration product; reference comparison at witnesses + polynomial identity of merged surfaces'),
+
+ 'C06': dict(cat='model_checking', ref='4/C06',
+   text='Bounded exhaustive exploration of LAT=1 decks: ALL fill arrays over {0, own universe, u2, u3} for 2x2, 3x2 (with a fill rotation), flipped and swapped pair listings and 1-D cells, plus a deviation-bounded family over dimensions, skew cells, -rpp cells, ranges (negative, degenerate, trailing trivial), FILL=n with --lattice, fill transformations in three spellings, lattice TRCL and containers larger than / cutting the range; each deck is compared with the reference lattice semantics (owner filler cell, outermost container, composition) at one witness per cell of the joint plane arrangement.',
+   note='Trusted: MCNP lattice conventions as stated in the property; synthetic element ids in provenance comments are not compared, index assignment is observed through asymmetric arrays.',
+   tech='explicit enumeration (complete array products + deviation-bounded shapes) against a reference lattice model; complete plane-arrangement witnesses'),
 }
 NA_REASON = 'check not built yet in this build round (planned, see DESIGN.md section 4); no claim is made'
 
